@@ -51,7 +51,7 @@ CLASSES = ["orth", "ordered", "arbitrary_rde", "tiny", "multi", "big"]
 
 
 def plan(tier):
-    n = 600 if tier == "quick" else 25000
+    n = 1200 if tier == "quick" else 25000
     p = [(c, n) for c in CLASSES[:5]]
     p.append(("big", 40 if tier == "quick" else 1500))
     return p
